@@ -128,6 +128,27 @@ Theorem C12_convex_scalar :
 Proof. exact scalar_convex. Qed.
 Print Assumptions C12_convex_scalar.
 
+(* the total cost (any composition of rows, elliptic contacts of any dimension included) lies above each
+   of its tangent planes, cost(y) >= cost(x) - efc_force(x) . (y - x), and is therefore jointly convex in
+   the whole residual vector (needs efc_D >= 0 in addition to cu_wf) *)
+Theorem C12_tangent :
+  forall flgH ne nf (con : list (@contact R)) (rows : list (@rowdesc R)) (x y : list R),
+    cu_wf (length rows) ne nf con 0 rows -> D_nonneg rows -> length x = length rows -> length y = length rows ->
+    cu_cost (constraint_update flgH ne nf con rows x) -
+    dotl (cu_force (constraint_update flgH ne nf con rows x)) (vsub y x) <=
+    cu_cost (constraint_update flgH ne nf con rows y).
+Proof. exact cu_tangent. Qed.
+Print Assumptions C12_tangent.
+
+Theorem C12_convex :
+  forall flgH ne nf (con : list (@contact R)) (rows : list (@rowdesc R)) (a b : list R) (lam : R),
+    cu_wf (length rows) ne nf con 0 rows -> D_nonneg rows -> length a = length rows -> length b = length rows ->
+    0 <= lam <= 1 ->
+    cu_cost (constraint_update flgH ne nf con rows (lincomb lam a b)) <=
+    lam * cu_cost (constraint_update flgH ne nf con rows a) + (1 - lam) * cu_cost (constraint_update flgH ne nf con rows b).
+Proof. exact cu_convex. Qed.
+Print Assumptions C12_convex.
+
 (* the hypotheses are what mj_makeImpedance establishes: for a frictional contact whose normal row has
    R0 > 0, with impratio > 0 and positive friction coefficients, the assigned mu, R and D = 1/R satisfy
    mu > 0, R > 0, D*R = 1 and rel_ok *)
